@@ -157,3 +157,38 @@ func VerifC14Captain() {
 	verif.Assert("each-emission-reported-once", reported == 2)
 	verif.Reach("captain-done")
 }
+
+// VerifC14Targets: the routing target as a solver variable: "to" is an arbitrary string, or a list of two
+// arbitrary strings (which may be equal to each other, to a machine id, to a reserved name or to nothing);
+// every machine - ordinary or service - receives the message exactly once iff it is named, never otherwise.
+func VerifC14Targets() {
+	verif.MapOrderInsertion(true)
+	log := &c14Log{}
+	ids := []string{"a", "b", TimersMachine, CaptainMachine}
+	c := &Crew{Conf: &CrewConf{Id: "c14t", Ctl: &core.Control{Limit: 10}}, Machines: map[string]*crew.Machine{},
+		changed: map[string]*Changed{}, previous: map[string]string{}}
+	for _, id := range ids {
+		c.Machines[id] = &crew.Machine{Id: id, Specter: recorderSpec(id, log, nil), State: &core.State{NodeName: "start", Bs: match.NewBindings()}}
+	}
+	s1 := verif.AnyString("to1")
+	msg := map[string]interface{}{"k": 1.0, "tag": "top"}
+	named := func(id string) bool { return s1 == id }
+	if verif.Choose("form", 2) == 1 {
+		s2 := verif.AnyString("to2")
+		msg["to"] = []interface{}{s1, s2}
+		named = func(id string) bool { return verif.Or(s1 == id, s2 == id) }
+	} else {
+		msg["to"] = s1
+	}
+	r, err := c.ProcessMsg(context.Background(), msg)
+	verif.Assert("process-succeeds", err == nil && r != nil)
+	for _, id := range ids {
+		want := verif.IteInt(named(id), 1, 0)
+		// "*" as the single string target addresses every ordinary machine
+		if _, isList := msg["to"].([]interface{}); !isList && (id == "a" || id == "b") {
+			want = verif.IteInt(verif.Or(named(id), s1 == "*"), 1, 0)
+		}
+		verif.Assert("symbolic-target-exactly-once-iff-named", countReceipts(log, id, "top") == want)
+	}
+	verif.Reach("targets-done")
+}
